@@ -494,6 +494,7 @@ type fatCase struct {
 	Ops     []fsdrive.Op `json:"ops,omitempty"` // replay: execute exactly these
 	Handles bool         `json:"handles,omitempty"`
 	Reopen  int          `json:"reopen,omitempty"` // re-open comparison every k steps
+	Alias   bool         `json:"alias,omitempty"`  // the volume starts at a device offset equal to the offset of its own data area inside the volume
 	Resess  int          `json:"resess,omitempty"` // the history goes on in a new session (image re-opened read-write) every k steps
 	MaxFile int          `json:"max_file,omitempty"`
 	Avoid   []string     `json:"avoid,omitempty"`
@@ -670,6 +671,16 @@ func runFatCase(prop string, c core.Case, env *core.Env) core.Result {
 	if v.Sector == 0 {
 		v.Sector = 512
 		fc.Vol = v
+	}
+	if fc.Alias {
+		// a device position computed without the volume's start (or with it twice) is off by exactly `start`:
+		// with start = the offset of the data area inside the volume such a write to an early cluster lands in
+		// the volume's own boot sector, FSInfo, backup boot sector or FAT instead of outside the volume
+		if d := fatDataOffset(v); d > 0 {
+			v.Start = d
+			fc.Vol = v
+			res.Mark("volume whose start equals the offset of its data area")
+		}
 	}
 	st := monstore.NewMemFilled(v.DevSize(), uint64(c.Seed)|1, monstore.Range{Off: v.Start, End: v.Start + v.Size})
 	fr := &fatRun{prop: prop, c: c, fc: fc, res: &res, st: st}
@@ -1118,6 +1129,33 @@ func fatRefill(fr *fatRun, fs filesystem.FileSystem, cs int, step func(fsdrive.O
 			fs = fs2
 		}
 	}
+}
+
+// fatDataOffset creates the volume once at start 0 on a scratch store and returns the byte offset of its
+// data area (first cluster) inside the volume, read raw from the boot sector; 0 if that cannot be done.
+func fatDataOffset(v FatVol) int64 {
+	v.Start = 0
+	st := monstore.NewMem(v.Size)
+	var err error
+	if pi := core.Guard(func() { _, err = fatCreate(st, v) }); pi != nil || err != nil {
+		return 0
+	}
+	b := st.Peek(0, 512)
+	le := func(o, n int) int64 {
+		x := int64(0)
+		for i := n - 1; i >= 0; i-- {
+			x = x<<8 | int64(b[o+i])
+		}
+		return x
+	}
+	bps, reserved, nfats, rootEnts, fatsz := le(11, 2), le(14, 2), le(16, 1), le(17, 2), le(22, 2)
+	if fatsz == 0 {
+		fatsz = le(36, 4)
+	}
+	if bps == 0 || fatsz == 0 {
+		return 0
+	}
+	return (reserved+nfats*fatsz)*bps + (rootEnts*32+bps-1)/bps*bps
 }
 
 // fatFreeClusters counts the free entries of the first FAT copy, read raw (-1 if the boot sector makes no sense).
